@@ -180,9 +180,19 @@ def analyse_pass1(res, tags, meta):
                 envsp = [s for s, t in stags if t.get('kind') in ('prelude', 'item') and s.get('text')]
                 txt = ' '.join((envsp[0]['text'][0].get('text', '') if envsp else '').split())
                 f['detail'] = 'callee precondition (std/env)' + ((': ' + txt[:160]) if txt else '')
+            hint_t = next((t for s_, t in stags if t.get('kind') == 'proof' and t.get('clause')), None)
             if clause_t is not None and clause_t.get('kind') == 'lemma' and body_t is None:
                 f['obligation'] = clause_t['clause']
                 f['props'] = clause_t.get('props', [])
+            elif hint_t is not None and (body_t is None or body_t.get('kind') == 'proof'):
+                # a lemma called from an inserted proof block: the failed step belongs to that hint
+                f['obligation'] = hint_t['clause']
+                f['props'] = hint_t.get('props', [])
+                f['fn'] = hint_t['fn']
+                rq = [s_ for s_, t in stags if t.get('kind') == 'lemma' and s_.get('text')]
+                if rq:
+                    f['detail'] = 'lemma precondition: ' + ' '.join(rq[0]['text'][0].get('text', '').split())[:200]
+                f.pop('props_override', None)
             else:
                 f['obligation'] = '%s.safety' % caller
                 f['props'] = None
@@ -321,6 +331,8 @@ def run_unit(u, keep=False, probe_pass=True):
         r['probe_wall'] = res2['wall']
     # trusted-base scan of the generated text
     r['trusted'] = trusted_scan(text)
+    for st in r['meta'].get('imported_stubs', []):
+        r['trusted'].append('imported contract of %s (proved in unit %s)%s' % (st['fn'], st['from_unit'], '; requires dropped (assumed): ' + ','.join(st['dropped_requires']) if st['dropped_requires'] else ''))
     r['gen_sha'] = hashlib.sha256(text.encode()).hexdigest()[:16]
     return r
 
@@ -354,7 +366,7 @@ def obligations_of(r):
     obs = {}
     meta = r['meta']
     for cid, c in meta['clauses'].items():
-        if c['kind'] == 'requires':
+        if c['kind'] in ('requires', 'assumed'):
             continue
         obs[cid] = {'props': c['props'], 'kind': c['kind'], 'fn': c['fn'], 'text': c['text']}
     for fi in meta['functions']:
